@@ -286,7 +286,7 @@ pub fn base_tx(caller: Address, to: Option<Address>, nonce: u64, spec: SpecId, b
         gas_price,
         priority_fee,
         nonce,
-        chain_id: if spec >= SpecId::SPURIOUS_DRAGON && rng.chance(3, 4) { Some(1) } else { None },
+        chain_id: if tx_type != 0 || (spec >= SpecId::SPURIOUS_DRAGON && rng.chance(3, 4)) { Some(1) } else { None },
         tx_type,
         auths: vec![],
         access_list: vec![],
@@ -350,7 +350,7 @@ pub fn generate(seed: u64, opts: &GenOptions) -> Scenario {
     for i in 0..n_eoa {
         let nonce = g.rng.below(3);
         nonces.push(nonce);
-        let balance = match g.rng.below(10) {
+        let balance = match g.rng.below(if profile == Profile::Invalid { 8 } else { 30 }) {
             0 => U256::from(g.rng.below(3_000_000)), // poor: some txs cannot pay
             _ => U256::from(1000u128 * ETHER),
         };
@@ -411,13 +411,64 @@ pub fn generate(seed: u64, opts: &GenOptions) -> Scenario {
         }
     }
 
-    // ---- transactions
-    let n_txs = g.rng.range(1, opts.max_txs as u64) as usize;
+    // ---- structured templates (C08 / C09 / C11 / C13): extra contracts + transaction intents
+    let mut precompiles: Vec<PrecompileSpec> = Vec::new();
+    let mut intents: Vec<crate::templates::Intent> = Vec::new();
+    let mut reserve_policy = false;
+    let template_base = n_contract + 1;
+    match profile {
+        Profile::Lifecycle if g.rng.chance(2, 3) => {
+            intents = crate::templates::lifecycle(g.rng, spec, n_eoa, template_base, &mut pre_state);
+        }
+        Profile::Code if spec >= SpecId::PRAGUE && g.rng.chance(4, 5) => {
+            intents = crate::templates::code_7702(g.rng, n_eoa, template_base, hot_slots, &mut pre_state);
+        }
+        Profile::Precompile => {
+            intents = crate::templates::precompile_template(g.rng, spec, n_eoa, n_contract, template_base, beneficiary, &mut pre_state, &mut precompiles);
+        }
+        Profile::Reserve if spec >= SpecId::PRAGUE => {
+            let plan = crate::templates::reserve_template(g.rng, n_eoa, template_base, &mut pre_state);
+            intents = plan.intents;
+            reserve_policy = true;
+        }
+        _ => {}
+    }
+
+    // ---- transactions: template intents interleaved with random ones; nonces assigned afterwards
+    let n_random = if intents.is_empty() {
+        g.rng.range(1, opts.max_txs as u64) as usize
+    } else {
+        g.rng.range(0, (opts.max_txs.saturating_sub(intents.len())).min(3) as u64) as usize
+    };
+    intents.truncate(opts.max_txs);
     let mut txs: Vec<TxSpec> = Vec::new();
-    for _ in 0..n_txs {
+    let mut senders: Vec<usize> = Vec::new();
+    let mut tx_auths: Vec<Vec<(Option<usize>, Address, i64, u64)>> = Vec::new();
+    for intent in &intents {
+        let mut tx = base_tx(eoa(intent.sender), intent.to, 0, spec, basefee, g.rng);
+        tx.value = intent.value;
+        tx.data = intent.data.clone();
+        tx.gas_limit = intent.gas_limit;
+        tx.label = intent.label.to_string();
+        if !intent.auths.is_empty() {
+            tx.tx_type = 4;
+            tx.chain_id = Some(1);
+            if tx.priority_fee.is_none() {
+                tx.priority_fee = Some(0);
+            }
+        }
+        if intent.label == "own-tx-of-delegated" {
+            tx.gas_price = tx.gas_price.min(40).max(basefee as u128);
+            tx.priority_fee = tx.priority_fee.map(|p| p.min(tx.gas_price));
+        }
+        senders.push(intent.sender);
+        tx_auths.push(intent.auths.clone());
+        txs.push(tx);
+    }
+    for _ in 0..n_random {
         let sender_idx = g.rng.below(n_eoa as u64) as usize;
         let caller = eoa(sender_idx);
-        let nonce = nonces[sender_idx];
+        let nonce = 0;
         let kind = match profile {
             Profile::Conflict => g.rng.pick_weighted(&[5, 90, 2, 0, 3]),
             Profile::Beneficiary => g.rng.pick_weighted(&[25, 60, 3, 2, 10]),
@@ -477,15 +528,38 @@ pub fn generate(seed: u64, opts: &GenOptions) -> Scenario {
                 _ => {}
             }
         }
+        // random transactions are interleaved at random positions among the template ones
+        let at = g.rng.below(txs.len() as u64 + 1) as usize;
+        senders.insert(at, sender_idx);
+        tx_auths.insert(at, Vec::new());
+        txs.insert(at, tx);
+    }
+    // in-order nonces: the sender's nonce is consumed first, then each valid authorisation bumps its
+    // authority (EIP-7702); an authority that is also the sender therefore signs nonce + 1
+    for (i, tx) in txs.iter_mut().enumerate() {
+        let sender_idx = senders[i];
+        tx.nonce = nonces[sender_idx];
         nonces[sender_idx] += 1;
-        txs.push(tx);
+        for (authority, target, offset, chain) in &tx_auths[i] {
+            let (authority_addr, nonce) = match authority {
+                Some(idx) => {
+                    let n = (nonces[*idx] as i64 + offset).max(0) as u64;
+                    if *offset == 0 && (*chain == 0 || *chain == 1) {
+                        nonces[*idx] += 1;
+                    }
+                    (Some(eoa(*idx)), n)
+                }
+                None => (None, 0),
+            };
+            tx.auths.push(AuthSpec { chain_id: *chain, address: *target, nonce, authority: authority_addr });
+        }
     }
 
     // ---- invalid transactions (any profile may carry a few; the invalid profile carries many)
     let invalid_rate = match profile {
         Profile::Invalid => 45,
-        Profile::Conflict => 3,
-        _ => 8,
+        Profile::Conflict => 2,
+        _ => 4,
     };
     let mut nonce_shift: Vec<i64> = vec![0; n_eoa];
     for tx in txs.iter_mut() {
@@ -603,13 +677,13 @@ pub fn generate(seed: u64, opts: &GenOptions) -> Scenario {
             concurrency,
             min_parallel_txs: *g.rng.pick(&[0, 0, 0, 0, n, n + 1]),
             force_sequential: false,
-            forbid_delegated_create: false,
-            reserve_delegated_balance: false,
+            forbid_delegated_create: reserve_policy && g.rng.chance(1, 2),
+            reserve_delegated_balance: reserve_policy && g.rng.chance(3, 4),
         },
         warm_cache: g.rng.chance(1, 4),
         bundle_update: true,
         faults: vec![],
-        precompiles: vec![],
+        precompiles,
         callers: vec![vec![Entry::Execute]],
         second: None,
         profile: profile.name().into(),
